@@ -70,11 +70,22 @@ def ingest(src, sid):
             print(sid, "patch does not apply:", out[-300:]); return False
         rc, out = sh(["go", "build", "./..."], cwd=repo)
         report["builds"] = rc == 0
-        oks = 0
-        for i in range(2):
-            rc, out = sh(["go", "test", "-count=1", "-vet=off", "./..."], cwd=repo, timeout=1800)
-            oks += rc == 0
-        report["repo_tests_with_patch"] = "pass x%d/2" % oks
+        # The repository's own TestClientGC can hang on the unchanged tree (its fake agent blocks in
+        # Collect when a second 1 ms tick fires before Close; same ordering in the pinned snapshot), so a
+        # run that dies of the test timeout inside TestClientGC is repeated - any other failure counts.
+        oks, runs, gcflakes = 0, 0, 0
+        while oks < 2 and runs < 5:
+            runs += 1
+            rc, out = sh(["go", "test", "-count=1", "-vet=off", "-timeout", "180s", "./..."], cwd=repo, timeout=1800)
+            if rc != 0 and "TestClientGC" in out and ("test timed out" in out or "SIGQUIT" in out):
+                gcflakes += 1
+                continue
+            if rc != 0:
+                break
+            oks += 1
+        report["repo_tests_with_patch"] = "pass x%d/%d" % (oks, runs - gcflakes)
+        if gcflakes:
+            report["repo_TestClientGC_hangs_ignored"] = gcflakes
         fails = 0
         for i in range(3):
             rc, out = run_demo(repo, src, meta)
